@@ -980,27 +980,56 @@ impl World {
     }
 
     /// The interfaces imported implicitly through uses.
+    ///
+    /// This covers the uses of the world itself and, transitively, the uses
+    /// of every interface the world imports or exports. An interface used
+    /// only by exported interfaces is not implicitly imported when the world
+    /// exports that interface itself.
     pub fn implicit_imported_interfaces<'a>(
         &'a self,
         types: &'a Types,
     ) -> IndexMap<&'a str, ItemKind> {
-        let mut interfaces = IndexMap::new();
-        let mut add_interface_for_used_type = |used_item: &UsedType| {
+        fn add_interface_for_used_type<'a>(
+            world: &World,
+            types: &'a Types,
+            interfaces: &mut IndexMap<&'a str, ItemKind>,
+            used_item: &UsedType,
+            from_export: bool,
+        ) {
             let used_interface_id = used_item.interface;
             // The id must be set since used interfaces are always named.
             let used_interface_name = types[used_interface_id].id.as_deref().unwrap();
-            interfaces.insert(used_interface_name, ItemKind::Instance(used_interface_id));
-        };
-
-        for (_, used_type) in self.uses.iter() {
-            add_interface_for_used_type(used_type);
+            if from_export && world.exports.contains_key(used_interface_name) {
+                return;
+            }
+            if interfaces
+                .insert(used_interface_name, ItemKind::Instance(used_interface_id))
+                .is_none()
+            {
+                // The used interface is now an import, so are its own uses.
+                for (_, used_item) in &types[used_interface_id].uses {
+                    add_interface_for_used_type(world, types, interfaces, used_item, false);
+                }
+            }
         }
 
-        for (_, import) in self.imports.iter() {
-            if let ItemKind::Instance(interface_id) = import {
-                let import = &types[*interface_id];
-                for (_, used_item) in &import.uses {
-                    add_interface_for_used_type(used_item);
+        let mut interfaces = IndexMap::new();
+        for (_, used_type) in self.uses.iter() {
+            add_interface_for_used_type(self, types, &mut interfaces, used_type, false);
+        }
+
+        for (from_export, items) in [(false, &self.imports), (true, &self.exports)] {
+            for (_, item) in items.iter() {
+                if let ItemKind::Instance(interface_id) = item {
+                    for (_, used_item) in &types[*interface_id].uses {
+                        add_interface_for_used_type(
+                            self,
+                            types,
+                            &mut interfaces,
+                            used_item,
+                            from_export,
+                        );
+                    }
                 }
             }
         }
